@@ -50,6 +50,8 @@ func c16(c *Ctx) {
 	r.Rule("C16.conn-pairing", "after each call returning (net.Conn, ..., error) with a nil error: every path to a return with a non-nil error has called Close on the connection or on a wrapper that owns it (tls.Client(c, ..), &brNetConn{Conn: c}), including through the deferred closure whose guard cell still holds it; every path returning success has not closed it and returns it (or a Conn built on it)")
 	r.Rule("C16.deadline-cleared", "DialContext: the success return is preceded by SetDeadline(time.Time{}) with nil result and no later deadline call; Upgrade: on success no deadline armed by Upgrade itself remains (read and write side tracked separately)")
 	r.Rule("C16.deadline-applied", "netDialWithDeadline sets the deadline on the dialed connection before returning it; netDialFn wraps the first-hop dialer with it before the proxy dialer is built; DialContext derives the context with HandshakeTimeout before choosing the dialer and uses the derived context for dialing and TLS")
+	r.Rule("C16.malformed-refused", "a malformed reply or request is refused (nil connection, error, transport closed) only if the token-list test recognises it as malformed: tokenListContainsValue matches whole tokens with ASCII case folding after optional SP/HTAB on every header line (same rule as C14.token-list)")
+	newUpgA(c).tokenListOWS("C16.malformed-refused")
 	r.Rule("C16.pre-hijack", "Upgrade replies through returnError and never hijacks on a failed validation (shared with C12.chain)")
 	r.Assume("a function returning (conn, err) with err == nil returns a non-nil conn (Go convention; used for net dial functions, Hijack, tls.Client)")
 	r.Assume("(*tls.Conn).Close closes the wrapped connection; brNetConn embeds the connection and inherits its Close")
